@@ -98,8 +98,8 @@ type Scenario struct {
 	StopAfter int  `json:"stop_after"`
 	ExtCancel bool `json:"ext_cancel"`
 	// PauseResults: do not read Results() until PauseUntil submissions were attempted
-	PauseResults bool `json:"pause_results"`
-	PauseUntil   int  `json:"pause_until"`
+	PauseResults bool   `json:"pause_results"`
+	PauseUntil   int    `json:"pause_until"`
 	Holds        []Hold `json:"holds"`
 	Drainers     int    `json:"drainers"`
 	Jitter       int    `json:"jitter"` // 0 none, else 1/Jitter of the events yield or sleep
@@ -160,8 +160,8 @@ func Run(sc Scenario) (out *Outcome) {
 	var clk clock
 
 	// --- bookkeeping for verdict functions -------------------------------
-	gidBlock := map[uint64]int{}  // submitter goroutine -> index of the block it is submitting
-	seqBlock := map[uint64]int{}  // sequence number -> block index (from SubBegin)
+	gidBlock := map[uint64]int{} // submitter goroutine -> index of the block it is submitting
+	seqBlock := map[uint64]int{} // sequence number -> block index (from SubBegin)
 	holdGate := map[string]chan struct{}{}
 	holdSeen := map[string]map[uint64]bool{}
 	holdHit := map[string]chan struct{}{}
